@@ -274,6 +274,31 @@ fn replay(path: &str) -> i32 {
                 }
             }
         }
+        Some(e @ ("c09" | "c12" | "c13" | "c17" | "c18")) => {
+            sut::set_quiet(true);
+            let r = match e {
+                "c09" => check_c09::replay(&v),
+                "c12" => check_c12::replay(&v),
+                "c13" => check_c13::replay(&v),
+                "c17" => check_c17::replay(&v),
+                _ => check_c18::replay(&v),
+            };
+            match r {
+                Ok(Some(what)) => {
+                    println!("{}", what);
+                    println!("replayed twice with identical observations");
+                    1
+                }
+                Ok(None) => {
+                    println!("no violation in this scenario; replayed twice with identical observations");
+                    0
+                }
+                Err(e) => {
+                    eprintln!("MACHINERY-ERROR: {}", e);
+                    2
+                }
+            }
+        }
         Some(other) => {
             println!("engine {}: this artefact names the failing case; re-run `./run check {}` to reproduce it (deterministic enumeration)", other, v["property"].as_str().unwrap_or("<id>"));
             println!("{}", serde_json::to_string_pretty(&v).unwrap());
